@@ -1,2 +1,117 @@
-(** Property C08 — placeholder until the allocation proofs land *)
-From MP4 Require Import Loop.
+(** * Property C08 — memory use is bounded by the input length, not by fields in the input
+
+    "Opening an input of n bytes (given with its true length), and reading any of its samples, never
+    allocates more than a fixed linear function of n, in total or in a single request: no size,
+    count or length field taken from the input is trusted for allocation beyond the data that can
+    actually be present."
+
+    Statements only; proofs in [Base/Cost.v], [Proofs/CostLeaf*.v], [Proofs/CostOpen.v],
+    [Proofs/CostSample.v] (see C07.v for the reading of [runm] and the meters).
+
+    - [m_alloc_max]: the largest single allocation request ([Vec::with_capacity(n)], [vec![0; n]],
+      the growth of [read_to_end]); [m_alloc_sum]: the sum of all requests.  The decoders emit the
+      request BEFORE the reads that fill the buffer, as the Rust code does.
+    - the constants are explicit numerals: [open_Al = 71528471767023872],
+      [open_Bl = 280503810850560] (generous, see C07.v).
+    - the core facts are the per-box ones: every table box compares its entry count with
+      [(size - header) / entry_size] before [Vec::with_capacity(count)], so its requests are at
+      most [size] (twice [size] where the in-memory entry is larger than the wire entry), and the
+      containers compare [size] with the parent's size, hence with the file length.
+    - three codec-configuration fields are NOT compared with the box size before the allocation:
+      the NAL-unit length of avcC (u16: one request of at most 65 535 bytes), [num_of_arrays] of
+      hvcC (u8: 255 * 32 bytes) and [num_nalus] of an hvcC array (u16: 65 535 * 32 bytes = 2 MiB
+      in one request, from a box of a few dozen bytes).  These are bounded by the constants the
+      field widths allow ([avcc_cost], [hvcc_cost]); they are what makes [open_Bl] large. *)
+From MP4 Require Import Cost Reader CostLeaf CostLeaf2 CostLeaf3 CostOpen CostSample CostProps.
+From MP4 Require Import BoxStts BoxCtts BoxStsc BoxStsz BoxStss BoxStco BoxCo64 BoxElst BoxTrun
+     BoxHdlr BoxAvc1 BoxHev1.
+From MP4 Require Track.
+Open Scope list_scope.
+Open Scope N_scope.
+
+Definition C08_statement : Prop :=
+  (forall data m fuel, bytes_ok data = true -> lenN data < 2 ^ 62 -> lenN data < N.of_nat fuel ->
+     let mt := snd (runm (open_fuel fuel m (lenN data)) (stream_at data 0) (meter0 None)) in
+     m_alloc_max mt <= open_Al * lenN data + open_Bl /\ m_alloc_sum mt <= open_Al * lenN data + open_Bl)
+  /\ (forall data m rd fuel, bytes_ok data = true -> lenN data < 2 ^ 62 -> lenN data < N.of_nat fuel ->
+     let mt := snd (runm (open_fragment_fuel fuel m rd (lenN data)) (stream_at data 0) (meter0 None)) in
+     m_alloc_max mt <= open_Al * lenN data + open_Bl /\ m_alloc_sum mt <= open_Al * lenN data + open_Bl)
+  /\ (forall m rd tid sid data p,
+     let mt := snd (runm (rd_read_sample m rd tid sid) (stream_at data p) (meter0 None)) in
+     m_alloc_max mt <= 2 * lenN data + 32 /\ m_alloc_sum mt <= 2 * lenN data + 32).
+
+Theorem C08 : C08_statement.
+Proof. exact c08_all. Qed.
+Print Assumptions C08.
+
+(** ** The per-box facts: [bnd c W Al] says that from every position of every input, [c] requests
+    at most [Al] bytes in total (hence in any single request) and does at most [W] units of work *)
+Theorem C08_stts : forall m size, bnd (dec_stts m size) (2 * size + 40) size.
+Proof. exact stts_cost. Qed.
+Theorem C08_ctts : forall m size, bnd (dec_ctts m size) (2 * size + 40) size.
+Proof. exact ctts_cost. Qed.
+Theorem C08_stsc : forall m size, bnd (dec_stsc m size) (2 * size + 40) (2 * size).
+Proof. exact stsc_cost. Qed.
+Theorem C08_stsz : forall m size, bnd (dec_stsz m size) (2 * size + 40) size.
+Proof. exact stsz_cost. Qed.
+Theorem C08_stss : forall m size, bnd (dec_stss m size) (2 * size + 40) size.
+Proof. exact stss_cost. Qed.
+Theorem C08_stco : forall m size, bnd (dec_stco m size) (2 * size + 40) size.
+Proof. exact stco_cost. Qed.
+Theorem C08_co64 : forall m size, bnd (dec_co64 m size) (2 * size + 40) size.
+Proof. exact co64_cost. Qed.
+Theorem C08_elst : forall m size, bnd (dec_elst m size) (2 * size + 40) (2 * size).
+Proof. exact elst_cost. Qed.
+Theorem C08_trun : forall m size, bnd (dec_trun m size) (2 * size + 40) size.
+Proof. exact trun_cost. Qed.
+Theorem C08_hdlr : forall m size, bnd (dec_hdlr m size) (size + 400) size.
+Proof. exact hdlr_cost. Qed.
+(** the codec boxes: constants of the field widths, not of the box size *)
+Theorem C08_avcc : forall m size, bnd (dec_avcc m size) 18750000 18750000.
+Proof. exact avcc_cost. Qed.
+Theorem C08_hvcc : forall m size, bnd (dec_hvcc m size) hvcc_W hvcc_A.
+Proof. exact hvcc_cost. Qed.
+
+(** what a [bnd] gives for the single largest request *)
+Theorem C08_single_request : forall {A} (c : prog A) W Al d p,
+  bnd c W Al -> bytes_ok d = true -> c_amax (snd (mrun c d p)) <= Al.
+Proof. exact @bnd_amax. Qed.
+
+(** ** Non-vacuity *)
+Example C08_open_test_file :
+  let data := reader_test_file in
+  let mt := snd (runm (open_fuel 886 Dbg (lenN data)) (stream_at data 0) (meter0 None)) in
+  lenN data = 885 /\ m_alloc_max mt = 48 /\ m_alloc_sum mt = 170.
+Proof. vm_compute. repeat split; reflexivity. Qed.
+
+(** a 20-byte stts box announcing 2^32 - 1 entries is rejected before any allocation *)
+Example C08_stts_huge_count :
+  let data := be 4 20 ++ be 4 0x73747473 ++ [0; 0; 0; 0] ++ be 4 4294967295 ++ [0; 0; 0; 0] in
+  let '(r, _, mt) := runm (h <- read_header ;; dec_stts Dbg (snd h)) (stream_at data 0) (meter0 None) in
+  r = Err EData /\ m_alloc_sum mt = 0.
+Proof. vm_compute. split; reflexivity. Qed.
+
+(** reading sample 2 (20 bytes) of the test file requests 72 bytes *)
+Example C08_read_sample_test_file :
+  match fst (fst (runm (open_fuel 886 Dbg 885) (stream_at reader_test_file 0) (meter0 None))) with
+  | Ok rd =>
+      let mt := snd (runm (rd_read_sample Dbg rd 1 2) (stream_at reader_test_file 0) (meter0 None)) in
+      m_alloc_max mt = 72 /\ m_alloc_sum mt = 72
+  | _ => False
+  end.
+Proof. vm_compute. split; reflexivity. Qed.
+
+(** the codec constants are attained: a 34-byte hvcC box whose single array announces 65 535 NAL
+    units makes [Vec::with_capacity] request 2 097 120 bytes (then the read fails); a 16-byte avcC box
+    with one SPS of announced length 65 535 requests 65 535 bytes.  Both are within [open_Bl]. *)
+Example C08_hvcc_overallocation :
+  let data := be 4 34 ++ be 4 0x68766343 ++ repeatN 0 22 ++ [1] ++ [0] ++ [255; 255] in
+  let '(r, _, mt) := runm (h <- read_header ;; dec_hvcc Dbg (snd h)) (stream_at data 0) (meter0 None) in
+  lenN data = 34 /\ r = Err EIo /\ m_alloc_max mt = 2097120 /\ m_alloc_sum mt = 2097152.
+Proof. vm_compute. repeat split; reflexivity. Qed.
+
+Example C08_avcc_overallocation :
+  let data := be 4 16 ++ be 4 0x61766343 ++ [1; 100; 0; 31; 255; 225] ++ [255; 255] in
+  let '(r, _, mt) := runm (h <- read_header ;; dec_avcc Dbg (snd h)) (stream_at data 0) (meter0 None) in
+  lenN data = 16 /\ r = Err EIo /\ m_alloc_max mt = 65535 /\ m_alloc_sum mt = 65559.
+Proof. vm_compute. repeat split; reflexivity. Qed.
